@@ -5,7 +5,10 @@ Families:
   meth    to_qubo / to_quso / to_pubo / to_puso / to_enumerated of the six labelled types (no degree reduction)
   sol     convert_solution with dict / list / tuple x boolean / spin x flag (+ malformed stream)
   isspin  is_solution_spin
-  export  Q, h, J, matrix_to_qubo, qubo_to_matrix (+ round trips) on dyadic values
+  export  Q, h, J, matrix_to_qubo, qubo_to_matrix (+ round trips) on dyadic values; the matrices / QUBO coefficients of
+          matrix_to_qubo and qubo_to_matrix in ten number types (int, float, Fraction, Python bool, numpy bool_, int64,
+          int32, float64, float32, mixed object lists) x five shapes (full, symmetric, upper, lower, diagonal) x three
+          containers (list, tuple, numpy array of the matching dtype), ragged / non-square / empty -> ValueError
   hist    one labelled object under a history of item edits (incl. cancellations), clear(), `*= dict`,
           set_mapping / set_reverse_mapping with a permutation, refresh(), copy(), interleaved with to_*,
           to_enumerated, the free functions and convert_solution; after every conversion the correspondence
@@ -25,7 +28,9 @@ RULE = ("sources: the ten model types and raw dicts (unsorted keys, repeated lab
         "realisations; every free conversion function, every to_* method of the labelled types whenever no "
         "degree reduction is needed, convert_solution over containers/forms/flags, exports and matrix round "
         "trips; a case is non-trivial when the source has >=2 terms and a key with >=2 distinct labels (conv, "
-        "meth), >=2 variables (sol), or >=2 non-zero entries (export); plus histories on one object (edits, "
+        "meth), >=2 variables (sol), or >=2 non-zero entries (export); matrix_to_qubo / qubo_to_matrix with int, float, "
+        "Fraction, Python-bool, numpy bool_/int64/int32/float64/float32 and mixed-object entries, matrices full / symmetric / "
+        "upper / lower / diagonal, as list, tuple or numpy array of that dtype; plus histories on one object (edits, "
         "cancellations, clear, *= dict, set_mapping/set_reverse_mapping permutations, refresh, copy) interleaved with "
         "conversions and convert_solution round trips, non-trivial when >=3 steps on a non-empty model; "
         "distinct = distinct case JSON")
@@ -552,27 +557,108 @@ def export_case(rng, malformed=False):
         return {"family": "export", "what": what, "kind": kind, "n": n, "p": p,
                 "labels": "int" if kind in MATRIX else rng.choice(Labels.STYLES_X), "num": pick_num(rng, p)}
     if what == "m2q":
-        n = rng.randint(1, 4)
-        rows = [[(gen_coef(rng, True) if rng.random() < 0.7 else "0") for _ in range(n)] for _ in range(n)]
-        if malformed:
-            m = rng.choice(["empty", "emptyrow", "ragged", "nonsquare"])
-            if m == "empty": rows = []
-            elif m == "emptyrow": rows = [[]]
-            elif m == "ragged": rows = rows + [rows[0][:-1]] if n > 1 else [["1", "2"], ["3"]]
-            else: rows = rows[:-1] if n > 1 else [["1", "2"]]
-        ragged = len({len(r) for r in rows}) > 1
-        return {"family": "export", "what": "m2q", "n": n, "rows": rows,
-                "container": rng.choice(["list", "tuple"] if ragged or not rows or not rows[0] else ["list", "tuple", "array"]),
-                "num": rng.choice(["int", "float", "frac"])}
+        return m2q_case(rng, malformed)
     n = rng.randint(1, 5)
     p = gen_terms(rng, n, 2, dyadic=True)
     if not malformed:
         p = [t for t in p if len(t[0]) > 0]          # no offset
     elif rng.random() < 0.5:
         p = [[[0, 0], "1"], [[0], "-1"]] if rng.random() < 0.5 else []
+    num = rng.choice(Q2M_NUMS)
+    p = q2m_values(rng, p, num)
     return {"family": "export", "what": "q2m", "n": n, "p": p, "kind": rng.choice(["dict", "QUBOMatrix"]),
             "refresh": rng.random() < 0.5, "symmetric": rng.random() < 0.5, "array": rng.random() < 0.5,
-            "num": rng.choice(["int", "float"])}
+            "num": num}
+
+
+# number types of matrix entries / QUBO coefficients.  Python bools and numpy bools are the numbers 0 / 1 (adjacency
+# matrices); numpy integer / float scalars of two widths; Fractions (object arrays); `mixed` = int, float, Fraction and bool
+# entries in one nested list.  Values stay small, so the fixed-width integer types never overflow.
+M2Q_NUMS = ["int", "float", "frac", "bool", "npbool", "npint", "npint32", "npfloat", "npfloat32", "mixed"]
+Q2M_NUMS = ["int", "float", "frac", "bool", "npbool", "npint", "npint32", "npfloat", "npfloat32"]
+M2Q_SHAPES = ["full", "sym", "upper", "lower", "diag"]
+NP_DTYPE = {"npbool": "bool_", "npint": "int64", "npint32": "int32", "npfloat": "float64", "npfloat32": "float32"}
+
+
+def coef_for(rng, num):
+    """a coefficient (exact rational string) the number type `num` represents exactly"""
+    if num in ("bool", "npbool"):
+        return "1" if rng.random() < 0.7 else "0"
+    if num in ("npint", "npint32"):
+        return str(rng.choice([-3, -2, -1, 1, 1, 2, 3, 4, 0]))
+    if num == "frac":
+        return gen_coef(rng, False)
+    return gen_coef(rng, True)
+
+
+def shape_rows(rows, shape):
+    n = len(rows)
+    for i in range(n):
+        for j in range(n):
+            if shape == "sym" and i > j:
+                rows[i][j] = rows[j][i]
+            elif (shape == "upper" and i > j) or (shape == "lower" and i < j) or (shape == "diag" and i != j):
+                rows[i][j] = "0"
+    return rows
+
+
+def m2q_case(rng, malformed=False, num=None, shape=None, container=None, n=None):
+    num = num or rng.choice(M2Q_NUMS)
+    shape = shape or rng.choice(M2Q_SHAPES)
+    n = n or rng.randint(1, 4)
+    dense = 0.85 if num in ("bool", "npbool") else 0.7
+    rows = shape_rows([[(coef_for(rng, num) if rng.random() < dense else "0") for _ in range(n)] for _ in range(n)], shape)
+    if malformed:
+        m = rng.choice(["empty", "emptyrow", "ragged", "nonsquare"])
+        if m == "empty": rows = []
+        elif m == "emptyrow": rows = [[]]
+        elif m == "ragged": rows = rows + [rows[0][:-1]] if n > 1 else [["1", "1"], ["1"]]
+        else: rows = rows[:-1] if n > 1 else [["1", "1"]]
+    ragged = len({len(r) for r in rows}) > 1
+    conts = ["list", "tuple"] if ragged or not rows or not rows[0] else ["list", "tuple", "array"]
+    if container not in conts:
+        container = rng.choice(conts)
+    return {"family": "export", "what": "m2q", "n": n, "rows": rows, "shape": shape, "container": container, "num": num}
+
+
+def q2m_values(rng, p, num):
+    """the coefficients of a q2m case re-drawn so that the number type `num` represents them exactly"""
+    if num in ("int", "float"):
+        return p
+    if num == "frac":
+        return [[k, v if rng.random() < 0.5 else gen_coef(rng, True)] for k, v in p]
+    return [[k, coef_for(rng, num)] for k, v in p]
+
+
+def entry_of(v, num, pos=0):
+    """the Python / numpy object standing for the exact value `v` (a string) under the number type `num`"""
+    import numpy as np
+    f = Fraction(v)
+    if num == "bool":
+        return bool(f)
+    if num in NP_DTYPE:
+        t = getattr(np, NP_DTYPE[num])
+        return t(bool(f)) if num == "npbool" else t(int(f)) if num.startswith("npint") else t(float(f))
+    if num == "mixed":
+        opts = [float(f), f]
+        if f.denominator == 1:
+            opts.append(int(f))
+        if f in (0, 1):
+            opts += [bool(f), bool(f)]
+        return opts[pos % len(opts)]
+    return num_of(v, num)
+
+
+def m2q_input(c):
+    import numpy as np
+    rows = [[entry_of(v, c["num"], 3 * i + j) for j, v in enumerate(row)] for i, row in enumerate(c["rows"])]
+    if c["container"] == "list":
+        return rows
+    if c["container"] == "tuple":
+        return tuple(tuple(r) for r in rows)
+    if c["num"] in NP_DTYPE:
+        return np.array(rows, dtype=getattr(np, NP_DTYPE[c["num"]]))
+    return np.array(rows)
 
 
 def export_line(c):
@@ -615,13 +701,16 @@ def export_impl(c):
                 return {"err": "other"}, None
             return {"terms": export_terms(r, L, c["what"] == "h")}, (M, r)
         if c["what"] == "m2q":
-            rows = [[num_of(v, c["num"]) for v in row] for row in c["rows"]]
-            A = rows if c["container"] == "list" else tuple(tuple(r) for r in rows) if c["container"] == "tuple" \
-                else np.array(rows)
+            A = m2q_input(c)
             r = utils.matrix_to_qubo(A)
-            return {"type": type(r).__name__, "terms": canon_terms(r, Labels("int"))}, r
+            back = None
+            if len(r) and all_dyadic([[None, v] for row in c["rows"] for v in row]):
+                # the round trip of the export clause: qubo_to_matrix(matrix_to_qubo(A)) is the same function as A
+                back = [utils.qubo_to_matrix(r, symmetric=sym, array=arr) for sym, arr in ((True, True), (False, False))]
+            return {"type": type(r).__name__, "terms": canon_terms(r, Labels("int"))}, (r, back)
         L = Labels("int")
-        src = build(c["kind"], c["p"], L, c["num"])
+        items = [(L.key(k), entry_of(v, c["num"])) for k, v in c["p"]]
+        src = dict(items) if c["kind"] == "dict" else cls_of(c["kind"])(items)
         if c["kind"] != "dict" and c["refresh"]:
             src.refresh()
         r = utils.qubo_to_matrix(src, symmetric=c["symmetric"], array=c["array"])
@@ -667,11 +756,24 @@ def export_oracle(c, canon, r):
         if canon["type"] != "QUBOMatrix":
             return "matrix_to_qubo returned %s" % canon["type"]
         n = len(rows)
+        r, back = r
+        bad = common.keys_are_canonical(r)
+        if bad:
+            return "matrix_to_qubo: result not canonical: " + bad
+        backs = [[[Fraction(fs(v)) for v in row] for row in (B.tolist() if hasattr(B, "tolist") else B)] for B in back or []]
+        for B in backs:
+            if len(B) > n or any(len(row) != len(B) for row in B):
+                return "qubo_to_matrix(matrix_to_qubo(A)) has the wrong shape"
         for bits in assignments(n):
             want = sum((Fraction(rows[i][j]) * bits[i] * bits[j] for i in range(n) for j in range(n)), Fraction(0))
-            got = Fraction(r.value(list(bits)))
-            if got != want:
-                return "matrix_to_qubo: x^T A x = %s but the QUBO gives %s at %s" % (want, got, bits)
+            got = Fraction(fs(r.value(list(bits))))
+            got2 = obj_value(r.items(), dict(enumerate(map(Fraction, bits))))
+            if got != want or got2 != want:
+                return "matrix_to_qubo: x^T A x = %s but the QUBO gives %s (value()) / %s (terms) at %s" % (want, got, got2, bits)
+            for B in backs:
+                gotb = sum((B[i][j] * bits[i] * bits[j] for i in range(len(B)) for j in range(len(B))), Fraction(0))
+                if gotb != want:
+                    return "qubo_to_matrix(matrix_to_qubo(A)): x^T B x = %s but x^T A x = %s at %s" % (gotb, want, bits)
         return None
     # q2m
     stored = stored_terms(c["p"])
@@ -702,7 +804,7 @@ def export_oracle(c, canon, r):
         x = list(bits)
         want = raw_value(c["p"], dict(enumerate(map(Fraction, x))))
         got = sum((A[i][j] * x[i] * x[j] for i in range(m) for j in range(m)), Fraction(0))
-        gotb = Fraction(back.value(x))
+        gotb = Fraction(fs(back.value(x)))
         if got != want or gotb != want:
             return "qubo_to_matrix: x^T A x = %s, round trip gives %s, QUBO gives %s at %s" % (got, gotb, want, x)
     return None
@@ -1118,6 +1220,21 @@ def fixed_cases():
                 "symmetric": False, "array": True, "num": "int"})
     out.append({"family": "export", "what": "q2m", "n": 2, "p": [[[0, 1], "1"], [[1, 0], "-1"], [[0], "2"]],
                 "kind": "QUBOMatrix", "refresh": False, "symmetric": True, "array": False, "num": "int"})
+    # matrix_to_qubo: every number type x shape x container (fixed generator: the same matrices on every seed), and
+    # qubo_to_matrix of every number type, symmetric and upper-triangular
+    import random
+    frng = random.Random(20240229)
+    for num in M2Q_NUMS:
+        for shape in M2Q_SHAPES:
+            for cont in ("list", "tuple", "array"):
+                out.append(m2q_case(frng, False, num, shape, cont, n=3 if shape != "diag" else 2))
+        out.append(m2q_case(frng, True, num))
+    for num in Q2M_NUMS:
+        for sym in (True, False):
+            for kind in ("dict", "QUBOMatrix"):
+                p = q2m_values(frng, [[[0, 1], "3/2"], [[1], "-1"], [[2, 0], "1/2"], [[1, 0], "2"], [[2, 2], "1"]], num)
+                out.append({"family": "export", "what": "q2m", "n": 3, "p": p, "kind": kind, "refresh": sym,
+                            "symmetric": sym, "array": kind == "dict", "num": num})
     for kind in LABELLED_BOOL + LABELLED_SPIN:
         for flag in (None, True, False):
             for cont in ("dict", "list", "tuple"):
